@@ -68,7 +68,15 @@ func main() {
 			fail(fmt.Errorf("bad spec %q", spec))
 		}
 		passes := map[string]bool{}
+		accessNames = map[string]bool{}
 		for _, p := range strings.Split(parts[1], ",") {
+			if strings.HasPrefix(p, "access=") {
+				passes["access"] = true
+				for _, n := range strings.Split(p[len("access="):], "|") {
+					accessNames[n] = true
+				}
+				continue
+			}
 			passes[p] = true
 		}
 		dir, only := parts[0], ""
@@ -121,6 +129,10 @@ func fail(err error) {
 }
 
 var srcOverlay = map[string]string{}
+
+// accessNames: field names ("lastSig") or qualified names ("sigCache.Hash") whose reads and writes
+// are announced to the scheduler (pass "access=a|b|c").
+var accessNames = map[string]bool{}
 
 var timeFuncs = map[string]bool{"Now": true, "Since": true, "AfterFunc": true, "Sleep": true}
 
@@ -238,10 +250,19 @@ func rewrite(src, dst, dir string, passes map[string]bool) (bool, error) {
 		}
 		return true
 	})
+	if passes["access"] {
+		if instrumentAccess(f, need) {
+			changed = true
+		}
+	}
 	if !changed {
 		return false, nil
 	}
 	for pkg := range need {
+		if pkg == "unsafe" {
+			addImport(f, "unsafe", "unsafe")
+			continue
+		}
 		addImport(f, pkg, "verifmc/"+pkg)
 	}
 	// the time import may have become unused
@@ -303,4 +324,192 @@ func usesIdent(f *ast.File, name string) bool {
 		return !used
 	})
 	return used
+}
+
+// ---------------------------------------------------------------------------------------------
+// pass "access": announce reads / writes of configured shared fields in front of the statement
+
+type acc struct {
+	expr  ast.Expr // the selector X.Sel
+	write bool
+}
+
+func simpleBase(e ast.Expr) bool {
+	switch x := e.(type) {
+	case *ast.Ident:
+		return true
+	case *ast.SelectorExpr:
+		return simpleBase(x.X)
+	case *ast.StarExpr:
+		return simpleBase(x.X)
+	case *ast.ParenExpr:
+		return simpleBase(x.X)
+	}
+	return false
+}
+
+func matchAccess(se *ast.SelectorExpr) bool {
+	if !simpleBase(se.X) {
+		return false
+	}
+	if accessNames[se.Sel.Name] {
+		// a bare field name must not match a package-qualified identifier (pkg.Name): require a
+		// lower-case base or a selector chain; good enough for the configured names
+		return true
+	}
+	if id, ok := se.X.(*ast.Ident); ok && accessNames[id.Name+"."+se.Sel.Name] {
+		return true
+	}
+	return false
+}
+
+// rootSel finds the matching selector at the root of an l-value expression (x.f, x.f[i], x.f.g, *x.f).
+func rootSel(e ast.Expr) *ast.SelectorExpr {
+	for {
+		switch x := e.(type) {
+		case *ast.SelectorExpr:
+			if matchAccess(x) {
+				return x
+			}
+			e = x.X
+		case *ast.IndexExpr:
+			e = x.X
+		case *ast.SliceExpr:
+			e = x.X
+		case *ast.StarExpr:
+			e = x.X
+		case *ast.ParenExpr:
+			e = x.X
+		default:
+			return nil
+		}
+	}
+}
+
+func collect(n ast.Node, out *[]acc, writes map[*ast.SelectorExpr]bool) {
+	if n == nil {
+		return
+	}
+	ast.Inspect(n, func(m ast.Node) bool {
+		switch x := m.(type) {
+		case *ast.FuncLit:
+			return false // its body is instrumented on its own
+		case *ast.CallExpr:
+			if id, ok := x.Fun.(*ast.Ident); ok && id.Name == "delete" && len(x.Args) > 0 {
+				if r := rootSel(x.Args[0]); r != nil {
+					writes[r] = true
+				}
+			}
+		case *ast.SelectorExpr:
+			if matchAccess(x) {
+				*out = append(*out, acc{expr: x, write: writes[x]})
+				return false
+			}
+		}
+		return true
+	})
+}
+
+func stmtAccesses(st ast.Stmt) []acc {
+	var out []acc
+	writes := map[*ast.SelectorExpr]bool{}
+	switch x := st.(type) {
+	case *ast.AssignStmt:
+		for _, l := range x.Lhs {
+			if r := rootSel(l); r != nil {
+				writes[r] = true
+			}
+		}
+		collect(x, &out, writes)
+	case *ast.IncDecStmt:
+		if r := rootSel(x.X); r != nil {
+			writes[r] = true
+		}
+		collect(x, &out, writes)
+	case *ast.ExprStmt, *ast.ReturnStmt, *ast.DeclStmt, *ast.SendStmt, *ast.GoStmt, *ast.DeferStmt:
+		collect(st, &out, writes)
+	case *ast.IfStmt:
+		for s := x; s != nil; {
+			collect(s.Init, &out, writes)
+			collect(s.Cond, &out, writes)
+			next, _ := s.Else.(*ast.IfStmt)
+			s = next
+		}
+	case *ast.ForStmt:
+		collect(x.Init, &out, writes)
+		collect(x.Cond, &out, writes)
+	case *ast.RangeStmt:
+		collect(x.X, &out, writes)
+	case *ast.SwitchStmt:
+		collect(x.Init, &out, writes)
+		collect(x.Tag, &out, writes)
+	}
+	// writes flagged after collection (delete) need a second look
+	for i := range out {
+		if se, ok := out[i].expr.(*ast.SelectorExpr); ok && writes[se] {
+			out[i].write = true
+		}
+	}
+	// de-duplicate by printed form, a write wins
+	seen := map[string]int{}
+	var res []acc
+	for _, a := range out {
+		var buf bytes.Buffer
+		printer.Fprint(&buf, token.NewFileSet(), a.expr)
+		k := buf.String()
+		if i, ok := seen[k]; ok {
+			if a.write {
+				res[i].write = true
+			}
+			continue
+		}
+		seen[k] = len(res)
+		res = append(res, a)
+	}
+	return res
+}
+
+func announce(a acc, syncName string) ast.Stmt {
+	w := "false"
+	if a.write {
+		w = "true"
+	}
+	return &ast.ExprStmt{X: &ast.CallExpr{
+		Fun: &ast.SelectorExpr{X: ast.NewIdent(syncName), Sel: ast.NewIdent("Access")},
+		Args: []ast.Expr{
+			&ast.CallExpr{Fun: &ast.SelectorExpr{X: ast.NewIdent("unsafe"), Sel: ast.NewIdent("Pointer")}, Args: []ast.Expr{&ast.UnaryExpr{Op: token.AND, X: a.expr}}},
+			ast.NewIdent(w),
+		},
+	}}
+}
+
+func instrumentAccess(f *ast.File, need map[string]bool) bool {
+	changed := false
+	rewriteList := func(list []ast.Stmt) []ast.Stmt {
+		var out []ast.Stmt
+		for _, st := range list {
+			for _, a := range stmtAccesses(st) {
+				out = append(out, announce(a, "vsync"))
+				changed = true
+			}
+			out = append(out, st)
+		}
+		return out
+	}
+	ast.Inspect(f, func(n ast.Node) bool {
+		switch x := n.(type) {
+		case *ast.BlockStmt:
+			x.List = rewriteList(x.List)
+		case *ast.CaseClause:
+			x.Body = rewriteList(x.Body)
+		case *ast.CommClause:
+			x.Body = rewriteList(x.Body)
+		}
+		return true
+	})
+	if changed {
+		need["vsync"] = true
+		need["unsafe"] = true
+	}
+	return changed
 }
